@@ -1,10 +1,12 @@
 (* C08 — Character-wise and byte-wise automata agree on UTF-8 input.
-   Proved here: the UTF-8 facts the agreement rests on.  The agreement of the two automata itself
-   (cw_eq_bw) needs the character-wise certificate, which is not proved yet: it is decided by the
-   correspondence check, which compares the two IMPLEMENTATIONS directly on UTF-8 twins and each
-   with its model and with the byte-level specification (see DESIGN.md section 0). *)
+   Proved here: the UTF-8 facts the agreement rests on, the agreement of the two SPECIFICATIONS
+   (byte-level on encoded patterns/text = character-level with byte offsets), and from it the
+   agreement of a certified character-wise automaton with a certified byte-wise automaton built
+   from the same patterns, on every UTF-8 text (overlapping search, which determines the set of all
+   matches).  The correspondence check additionally compares the two IMPLEMENTATIONS directly on
+   UTF-8 twins for all six searches (see DESIGN.md section 0). *)
 From DV Require Import Model.Base Model.Nfa Model.BwBuild Model.BwSearch Model.Utf8 Model.CwBuild Model.Api Model.Spec Model.Cert
-     Proofs.Utf8Props Proofs.BwCert Proofs.CwCert.
+     Proofs.Utf8Props Proofs.BwCert Proofs.CwCert Theory.Utf8Spec.
 Local Open Scope N_scope.
 
 (* (1) self-synchronisation: a non-empty UTF-8 pattern occurs in a UTF-8 text only at a character
@@ -47,8 +49,7 @@ Print Assumptions len_utf8_is_encoded_length.
 
 (* (5) both automata against their specifications, on the same UTF-8 text: the character-wise
    result is the character-level specification with byte offsets; the byte-wise result is the
-   byte-level specification of the encoded patterns.  (That these two lists coincide is the list
-   form of (1); it is listed as the missing theorem spec_bytes_eq_spec_chars.) *)
+   byte-level specification of the encoded patterns.  (6) shows that the two lists coincide. *)
 Theorem cw_and_bw_against_their_specs :
   forall (V : Type) (veqb : V -> V -> bool), (forall a b, veqb a b = true -> a = b) ->
   forall (C : cw_automaton V) (B : bw_automaton V) (pvs : list (list N * V)),
@@ -71,6 +72,39 @@ Proof.
     destruct Hb as [<-|[<-|[<-|[<-|[]]]]]; lia.
 Qed.
 Print Assumptions cw_and_bw_against_their_specs.
+
+(* (6) the two specifications coincide: the byte-level overlapping specification of the encoded
+   patterns on the encoded text is the character-level one with positions translated to byte
+   offsets.  Patterns are distinct non-empty scalar strings (what the builders accept). *)
+Theorem byte_spec_is_char_spec :
+  forall (V : Type) (pvs : list (list N * V)),
+    (forall p v, In (p, v) pvs -> p <> []) -> (forall p v, In (p, v) pvs -> Forall scalar p) ->
+    NoDup (map fst pvs) ->
+  forall cs, Forall scalar cs ->
+    spec_overlapping V (bpvs V pvs) (encode_utf8 cs) = map (tb V cs) (spec_overlapping V pvs cs).
+Proof. exact spec_bytes_eq_spec_chars. Qed.
+Print Assumptions byte_spec_is_char_spec.
+
+(* (7) C08 itself for certified automata: a character-wise automaton and a byte-wise automaton,
+   each certified for the same distinct scalar patterns, return the same list of overlapping
+   matches (same order, same byte offsets, same values) on every UTF-8 text. *)
+Theorem cw_eq_bw_overlapping :
+  forall (V : Type) (veqb : V -> V -> bool), (forall a b, veqb a b = true -> a = b) ->
+  forall (C : cw_automaton V) (B : bw_automaton V) (pvs : list (list N * V)),
+    cw_cert_ok veqb C pvs = true ->
+    bw_cert_ok veqb B (map (fun pv => (encode_utf8 (fst pv), snd pv)) pvs) = true ->
+    (forall p v, In (p, v) pvs -> Forall scalar p) -> NoDup (map fst pvs) ->
+  forall cs : list N, Forall scalar cs ->
+    cw_find_overlapping_iter V C (encode_utf8 cs) = bw_find_overlapping_iter V B (encode_utf8 cs).
+Proof.
+  intros V veqb Hv C B pvs HC HB Hsc Hnd cs Hs.
+  destruct (cw_and_bw_against_their_specs V veqb Hv C B pvs HC HB cs Hs) as [-> ->].
+  f_equal. symmetry.
+  assert (Hne : forall p v, In (p, v) pvs -> p <> []).
+  { intros p v Hin. exact (proj1 (cpats_nodes V veqb C pvs HC p v Hin)). }
+  exact (spec_bytes_eq_spec_chars V pvs Hne Hsc Hnd cs Hs).
+Qed.
+Print Assumptions cw_eq_bw_overlapping.
 
 (* Non-vacuity: "é" (2 bytes) inside "aé😀é": found at byte offset 1 = boundary of character 1,
    not at the continuation byte; U+10FFFF decodes. *)
